@@ -182,7 +182,7 @@ def main(ck):
     pr = ck.proof('C30') if text is not None else {'ok': False, 'failed': ['<no Gen/ConfigBounds.lean>'], 'log': ''}
     lap('translate+proof')
     ck.trusted('translator harness/translate/config_bounds.py (statement-by-statement transcription of set_decimal_config; doc tables)',
-               'DuckDB (string/CSV -> DECIMAL rounding half away from zero, width check, DECIMAL(w,s) ± DECIMAL(w,s) in DECIMAL(min(w+1,38),s), '
+               'DuckDB (string/CSV -> DECIMAL rounding half away from zero, width check, DECIMAL(w,s) ± DECIMAL(w,s) in DECIMAL(w+1,s) except at widths 18 and 38 where the width stays and overflow is an error, '
                'COPY TO csv prints DECIMAL exactly) — modelled in Tables/Decimal.lean, compared on every run, not verified',
                'conversion of returned DECIMAL values to float64 by DuckDB/pandas (outside the model; exact text is compared through CSV output)',
                'Lean driver Drivers/Tables.lean + this harness')
